@@ -65,6 +65,7 @@ func registerTimeModels(e *Engine) {
 // disarms; Refresh re-arms one period from now whether it was pending, fired or stopped.
 
 type timerRec struct {
+	rt       *rtimer // set for a runtime (time.Timer) candidate in SleepUntil
 	cell     *Val
 	fn       Val
 	period   *smt.Term
@@ -110,9 +111,22 @@ func registerTimerModels(e *Engine) {
 			return cell
 		}
 	}
-	e.reg(utilsPkg+".SetTimeout", mk(false))
-	e.reg(utilsPkg+".SetTimeOut", mk(false))
-	e.reg(utilsPkg+".SetInterval", mk(true))
+	// real: after verif.RealTimers() the repository's own utils/timer.go is executed (on top
+	// of the runtime time.Timer model below) instead of the contract-level model
+	real := func(m ModelFn) ModelFn {
+		return func(in *Interp, fr *frame, fn *ssa.Function, a []Val) Val {
+			if in.side["realtimers"] != nil {
+				delete(in.modelsUsed, fn.String())
+				return in.callSSA(fr, fn, a, nil)
+			}
+			return m(in, fr, fn, a)
+		}
+	}
+	reg := e.reg
+	e2 := struct{ reg func(string, ModelFn) }{func(n string, m ModelFn) { reg(n, real(m)) }}
+	e2.reg(utilsPkg+".SetTimeout", mk(false))
+	e2.reg(utilsPkg+".SetTimeOut", mk(false))
+	e2.reg(utilsPkg+".SetInterval", mk(true))
 	stop := func(in *Interp, p Val) {
 		q := nilCheck(in, p)
 		if r := in.findTimer(q); r != nil {
@@ -125,14 +139,14 @@ func registerTimerModels(e *Engine) {
 		}
 		return nil
 	}
-	e.reg(utilsPkg+".ClearTimeout", clear)
-	e.reg(utilsPkg+".ClearInterval", clear)
-	e.reg("(*"+utilsPkg+".Timer).Stop", func(in *Interp, fr *frame, fn *ssa.Function, a []Val) Val {
+	e2.reg(utilsPkg+".ClearTimeout", clear)
+	e2.reg(utilsPkg+".ClearInterval", clear)
+	e2.reg("(*"+utilsPkg+".Timer).Stop", func(in *Interp, fr *frame, fn *ssa.Function, a []Val) Val {
 		stop(in, a[0])
 		return nil
 	})
 	e.reg("(*"+utilsPkg+".Timer).Unref", func(in *Interp, fr *frame, fn *ssa.Function, a []Val) Val { return nil })
-	e.reg("(*"+utilsPkg+".Timer).Refresh", func(in *Interp, fr *frame, fn *ssa.Function, a []Val) Val {
+	e2.reg("(*"+utilsPkg+".Timer).Refresh", func(in *Interp, fr *frame, fn *ssa.Function, a []Val) Val {
 		q := nilCheck(in, a[0])
 		if r := in.findTimer(q); r != nil {
 			c := in.ctx
@@ -177,6 +191,11 @@ func registerTimerModels(e *Engine) {
 					cands = append(cands, r)
 				}
 			}
+			for _, r := range in.rtimers() {
+				if r.armed && in.Branch(c.Bin(smt.OpSLe, r.due, t)) {
+					cands = append(cands, &timerRec{rt: r, due: r.due})
+				}
+			}
 			if len(cands) == 0 {
 				break
 			}
@@ -192,6 +211,17 @@ func registerTimerModels(e *Engine) {
 				}
 			}
 			in.side["tclock"] = r.due
+			if r.rt != nil {
+				// the runtime timer expires: its tick becomes receivable on C (at most one
+				// pending tick, as with Go >= 1.23 timer channels); goroutines waiting on C run
+				r.rt.armed = false
+				if len(r.rt.ch.buf) == 0 {
+					r.rt.ch.buf = append(r.rt.ch.buf, in.zero(r.rt.tickType))
+				}
+				in.wakeBlocked()
+				in.quiesce()
+				continue
+			}
 			r.fired++
 			if r.interval {
 				r.due = c.Bin(smt.OpAdd, r.due, r.period)
@@ -203,5 +233,98 @@ func registerTimerModels(e *Engine) {
 		}
 		in.side["tclock"] = t
 		return nil
+	})
+}
+
+
+// ---- runtime timer model: time.NewTimer / (*time.Timer).Stop / Reset / C ----
+// Used by the C19 harnesses (verif.RealTimers()), which execute the repository's own
+// utils/timer.go.  Semantics of Go >= 1.23 timer channels (the module's go directive is
+// 1.24): the channel holds at most the one tick of the current arming; Stop and Reset report
+// true iff the timer was still armed or its tick had not been received yet, and in either
+// case no stale tick can be received after they return.
+type rtimer struct {
+	cell     *Val
+	ch       *Chan
+	due      *smt.Term
+	armed    bool
+	tickType types.Type
+}
+
+func (in *Interp) rtimers() []*rtimer {
+	t, _ := in.side["rtimers"].([]*rtimer)
+	return t
+}
+
+func (in *Interp) findRTimer(p *Val) *rtimer {
+	for _, r := range in.rtimers() {
+		if r.cell == p {
+			return r
+		}
+	}
+	panic(unsupported("time.Timer not created by time.NewTimer"))
+}
+
+func (in *Interp) rtimerStop(r *rtimer) bool {
+	was := r.armed
+	r.armed = false
+	if len(r.ch.buf) > 0 {
+		r.ch.buf = nil
+		was = true
+	}
+	return was
+}
+
+func registerRuntimeTimerModels(e *Engine) {
+	e.reg(verifPkg+".RealTimers", func(in *Interp, fr *frame, fn *ssa.Function, a []Val) Val {
+		in.side["realtimers"] = true
+		return nil
+	})
+	e.reg(verifPkg+".Goroutines", func(in *Interp, fr *frame, fn *ssa.Function, a []Val) Val {
+		n := 0
+		for _, t := range in.threads[1:] {
+			if t.state != tDone {
+				n++
+			}
+		}
+		return in.ctx.Const(64, uint64(n))
+	})
+	due := func(in *Interp, d *smt.Term) *smt.Term {
+		c := in.ctx
+		dd := c.Ite(c.Bin(smt.OpSLt, d, c.Const(64, 0)), c.Const(64, 0), d)
+		return c.Bin(smt.OpAdd, in.tnow(), dd)
+	}
+	e.reg("time.NewTimer", func(in *Interp, fr *frame, fn *ssa.Function, a []Val) Val {
+		pt := fn.Signature.Results().At(0).Type()
+		st := deref(pt).Underlying().(*types.Struct)
+		cell := new(Val)
+		z := in.zero(deref(pt)).(Struct)
+		in.nchan++
+		ch := &Chan{cap: 1, id: in.nchan}
+		var tick types.Type
+		for i := 0; i < st.NumFields(); i++ {
+			if st.Field(i).Name() == "C" {
+				z[i] = ch
+				tick = st.Field(i).Type().Underlying().(*types.Chan).Elem()
+			}
+		}
+		*cell = z
+		in.preemptPoint()
+		r := &rtimer{cell: cell, ch: ch, due: due(in, a[0].(*smt.Term)), armed: true, tickType: tick}
+		in.side["rtimers"] = append(in.rtimers(), r)
+		return cell
+	})
+	e.reg("(*time.Timer).Stop", func(in *Interp, fr *frame, fn *ssa.Function, a []Val) Val {
+		r := in.findRTimer(nilCheck(in, a[0]))
+		in.preemptPoint()
+		return in.ctx.BoolC(in.rtimerStop(r))
+	})
+	e.reg("(*time.Timer).Reset", func(in *Interp, fr *frame, fn *ssa.Function, a []Val) Val {
+		r := in.findRTimer(nilCheck(in, a[0]))
+		in.preemptPoint()
+		was := in.rtimerStop(r)
+		r.due = due(in, a[1].(*smt.Term))
+		r.armed = true
+		return in.ctx.BoolC(was)
 	})
 }
